@@ -826,6 +826,56 @@ Example ex_unsorted_rejected :
                   (repeat 1 64) [4; 2] (repeat 0 195) [1; 3; 5] = BadMisbehaved.
 Proof. vm_compute. reflexivity. Qed.
 
+(* ---- a key with SHORT coordinates.  key_formats_agree and the preimage theorems are stated for
+   coordinates of ANY size below 2^256; this is the instance at the public key of the private
+   scalar 0xae55 (the smallest scalar whose X is below 2^240: big.Int.Bytes() returns 30 bytes;
+   harness/cmd/c40/keys.go corpusShortKeys).  Both client serialisations LEFT-pad each coordinate
+   to 32 bytes, the three client preimages built from it are the contracts', and a serialiser
+   that copies X.Bytes() / Y.Bytes() to the START of each 32-byte half (right-padding, the
+   independently written breaking change seeded/C40a) yields other bytes of the same length, so
+   the length check in calculateDKGResultSignatureHash cannot notice. *)
+Definition short_key_x : N := 0x8f2eca2314ee8bf0c03549e442ff21f750d8f7332bc6f2abc9980aabe9b0.
+Definition short_key_y : N := 0xe8c1c7a34fc69114ed759daea65f33ff6682751a17785f2750e954fb3ee5243.
+Definition right_pad32 (b : bytes) : bytes := b ++ repeat 0 (32 - length b).
+Definition right_padded_key (x y : N) : bytes := right_pad32 (min_be x) ++ right_pad32 (min_be y).
+Example ex_short_coordinate_key :
+  short_key_x < 2 ^ 240 /\ 2 ^ 248 <= short_key_y < two256
+  /\ lenN (min_be short_key_x) = 30 /\ lenN (min_be short_key_y) = 32
+  /\ exists pk,
+       pubkey_chain_format short_key_x short_key_y = Some pk
+       /\ pk = [0; 0] ++ min_be short_key_x ++ min_be short_key_y
+       /\ option_map (@tl N) (marshal_uncompressed short_key_x short_key_y) = Some pk
+       /\ lenN pk = 64
+       (* the hash the supporters sign, the claim hash and the wallet id: the contracts' bytes *)
+       /\ client_sig_preimage 1 short_key_x short_key_y [3; 1] 1000
+          = Some (contract_sig_preimage 1 pk [1; 3] 1000)
+       /\ client_claim_preimage 1 7 short_key_x short_key_y [2; 9] true
+          = Some (contract_claim_preimage 1 7 (wallet_x pk) (wallet_y pk)
+                    {| k_wallet := []; k_inactive := [2; 9]; k_hbf := true; k_sigs := [];
+                       k_signing := [] |})
+       /\ client_wallet_preimage short_key_x short_key_y = Some (contract_wallet_preimage pk)
+       (* right-padding: same length, other bytes *)
+       /\ lenN (right_padded_key short_key_x short_key_y) = 64
+       /\ list_eqb (right_padded_key short_key_x short_key_y) pk = false.
+Proof.
+  split; [vm_compute; reflexivity|]. split; [split; vm_compute; congruence|].
+  split; [vm_compute; reflexivity|]. split; [vm_compute; reflexivity|].
+  eexists. split; [vm_compute; reflexivity|].
+  repeat split; vm_compute; reflexivity.
+Qed.
+(* the general statements instantiated at that key: nothing in their premises asks for a
+   coordinate of full length *)
+Example ex_short_coordinate_key_general :
+  option_map (@tl N) (marshal_uncompressed short_key_x short_key_y)
+  = pubkey_chain_format short_key_x short_key_y
+  /\ pubkey_chain_format short_key_x short_key_y
+     = Some (be_bytes 32 short_key_x ++ be_bytes 32 short_key_y).
+Proof.
+  assert (Hx : short_key_x < two256) by (vm_compute; reflexivity).
+  assert (Hy : short_key_y < two256) by (vm_compute; reflexivity).
+  split; [apply marshal_tl; assumption | apply pubkey_chain_format_ok; assumption].
+Qed.
+
 (* ------------------------------------------------------------------ statements used by Props *)
 Lemma assembled_indices p quorum i : valid_in p quorum i ->
   exists a, assemble i = Ok a /\
